@@ -17,7 +17,7 @@ PROPERTY = "C22"
 ENGINE = "E5-lfric-dm"
 LEVEL = "exploration"
 FEATURES = {"stencil", "builtins", "readinc", "cont_write", "anyspace",
-            "vector"}
+            "vector", "multireader"}
 RULE = ("Seeded invokes of 1-4 calls (generated kernels with 1-4 field "
         "arguments: read/write/readwrite/inc/readinc on W0-W3/Wtheta/"
         "any_space/any_discontinuous_space, stencils cross/region/x1d with "
